@@ -1074,7 +1074,7 @@ func suiteC06(c *Ctx) {
 			c.emit(Case{"refused-by-constructor", []Step{smlStep(fmt.Sprintf(ctx, bad))}, false})
 		}
 	}
-	n := c.scale(3000, 150000)
+	n := c.scale(3000, 60000)
 	for i := 0; i < n; i++ {
 		var text string
 		switch g.pick(4) {
@@ -1651,7 +1651,7 @@ func suiteC04(c *Ctx) {
 			c.emit(Case{"print-parse", g.steps, false})
 		}
 	}
-	n := c.scale(1500, 100000)
+	n := c.scale(1500, 20000)
 	for i := 0; i < n; i++ {
 		g := c.gen()
 		var steps []Step
